@@ -196,6 +196,10 @@ func unquote(s string) (string, bool) {
 		b.WriteRune(r)
 		esc = false
 	}
+	if esc {
+		// a trailing backslash escapes nothing
+		return "", false
+	}
 	return b.String(), true
 }
 
